@@ -31,7 +31,7 @@ fn merge_sst(case: u64, rng: &mut Rng, rep: &mut Report) {
     let un = *rng.pick(&[0usize, 1, 2, 10, 100, 300, 1000, 1500, 3000]);
     let (ukeys, class) = gen_keys(rng, un);
     let un = ukeys.len();
-    let subsets = gen_subsets(rng, un, k);
+    let mut subsets = gen_subsets(rng, un, k);
     let flavour = rng.below(3); // 0 void, 1 u64 sum, 2 u64 keep-first
     let fl_name = ["void+VoidMerge", "u64mono+U64Merge", "u64mono+KeepFirst"][flavour as usize];
     // values: per-input non-decreasing, merged result non-decreasing (the codec's contract)
@@ -46,6 +46,14 @@ fn merge_sst(case: u64, rng: &mut Rng, rep: &mut Report) {
             let members: Vec<usize> = (0..k).filter(|&i| subsets[i].get(cursor[i]) == Some(&u)).collect();
             if members.is_empty() {
                 continue;
+            }
+            // summed values must stay non-decreasing per input AND in the merged output, which
+            // can force the values to grow geometrically: stop the inputs here before u64 is at risk
+            if last_total > (1 << 48) {
+                for i in 0..k {
+                    subsets[i].truncate(cursor[i]);
+                }
+                break;
             }
             rank_val += rng.below(50);
             let mut total = 0u64;
